@@ -25,7 +25,7 @@ for l in open('/verif/properties.jsonl'):
     wt = '/tmp/mut/%s' % pid
     txt = f"""You are helping to evaluate a verification tool for the Go library charmbracelet/bubbletea (a TUI framework). Your job: produce ONE realistic change to the library's source code that BREAKS the property quoted below, while the library still compiles and its existing test suite still passes, plus a demonstration that fails with the change and passes without it.
 
-Your workspace is the git worktree {wt} (a checkout of the library at its current commit). Work ONLY inside that directory. Do not read or touch /repo, /verif or anything else outside your workspace (other than the Go toolchain and module cache). The sandbox has no network: run go offline exactly as `go build ./... && go vet . && go test -count=1 .` inside the workspace (never set GOFLAGS=-mod=mod there). Files named verif_export.go / verif_off.go (build tag `verif`) are test hooks; leave them alone, but your change must also compile with `go build -tags verif .`.
+Your workspace is the git worktree {wt} (a checkout of the library at its current commit). Work ONLY inside that directory. Never use `git stash` (the stash is shared between worktrees and other people work in sibling worktrees): to go back to the clean tree use `git diff > OUTDIR_TMP.patch && git checkout -- .` and `git apply` to return. Do not read or touch /repo, /verif or anything else outside your workspace (other than the Go toolchain and module cache). The sandbox has no network: run go offline exactly as `go build ./... && go vet . && go test -count=1 .` inside the workspace (never set GOFLAGS=-mod=mod there). Files named verif_export.go / verif_off.go (build tag `verif`) are test hooks; leave them alone, but your change must also compile with `go build -tags verif .`.
 
 THE PROPERTY ({pid}: {p['title']})
 Statement: {p['statement']}
